@@ -608,9 +608,24 @@ def _suppression(chk, repo):
     chk.ob("SUPP-1", "the remembered fade is (start colour, start time, target colour, target time)", layout == ["start_color", "start_time", "target_color", "target_time"],
            f.where(st[0]), detail=str(layout), construct=f.ident, text="remembered fade layout")
     n = 0
+    # fields may also be read through an unpacking of the remembered tuple (`a, b, c, d = self._last_fade_target`): a name stands for its position
+    unpacked = {}
+    for x in walk_local(f.node):
+        if isinstance(x, ast.Assign) and isinstance(x.targets[0], ast.Tuple) and \
+                (src(x.value) == F or (isinstance(x.value, ast.BoolOp) and isinstance(x.value.op, ast.Or) and src(x.value.values[0]) == F)):
+            for i_, e_ in enumerate(x.targets[0].elts):
+                if isinstance(e_, ast.Name):
+                    unpacked[e_.id] = i_
+
+    def as_field(y):
+        if isinstance(y, ast.Subscript) and src(y.value) == F:
+            return const_value(y.slice)
+        if isinstance(y, ast.Name) and y.id in unpacked:
+            return unpacked[y.id]
+        return None
     for cmp_ in [x for x in walk_local(f.node) if isinstance(x, ast.Compare) and len(x.ops) == 1]:
         sides = [cmp_.left, cmp_.comparators[0]]
-        subs = [y for y in sides if isinstance(y, ast.Subscript) and src(y.value) == F]
+        subs = [y for y in sides if as_field(y) is not None]
         if not subs:
             if any(src(y) == F for y in sides) and isinstance(cmp_.ops[0], ast.Eq):
                 other = [y for y in sides if src(y) != F][0]
@@ -618,7 +633,7 @@ def _suppression(chk, repo):
                 chk.ob("SUPP-1", "the unchanged-fade shortcut compares the whole tuple in the stored order", isinstance(other, ast.Tuple) and [src(e) for e in other.elts] == layout,
                        f.where(cmp_), detail=src(other), construct=f.ident, text="whole tuple comparison")
             continue
-        i = const_value(subs[0].slice)
+        i = as_field(subs[0])
         other = [y for y in sides if y is not subs[0]][0]
         n += 1
         if isinstance(cmp_.ops[0], (ast.Eq, ast.NotEq)):
@@ -953,6 +968,8 @@ def scan_exits_only_at_key(chk, rule, g, gcfg, h, name):
 def battery():
     from sa.battery import M
     return [
+        M("remembered fade unpacked in the wrong order", LT, "        if self._last_fade_target and target_color == self._last_fade_target[2] and \\\n                (self._last_fade_target[3] < 0 or self._last_fade_target[3] < self.machine.clock.get_time()):\n", "        last_color, _, _, last_time = self._last_fade_target or (None, 0, None, 0)\n        if self._last_fade_target and target_color == last_color and \\\n                (last_time < 0 or last_time < self.machine.clock.get_time()):\n", "SUPP-1"),
+        M("twin: remembered fade read through an unpacking", LT, "        if self._last_fade_target and target_color == self._last_fade_target[2] and \\\n                (self._last_fade_target[3] < 0 or self._last_fade_target[3] < self.machine.clock.get_time()):\n", "        _, _, last_color, last_time = self._last_fade_target or (None, 0, None, 0)\n        if self._last_fade_target and target_color == last_color and \\\n                (last_time < 0 or last_time < self.machine.clock.get_time()):\n", None),
         M("off on an empty stack is dropped", LT, "        del kwargs\n        self.color(color=self._off_color, fade_ms=fade_ms, priority=priority,", "        del kwargs\n        if not self.stack:\n            return\n        self.color(color=self._off_color, fade_ms=fade_ms, priority=priority,", "CMD-9"),
         M("repeated colour on top is dropped", LT, "        if not start_time:\n            start_time = self.machine.clock.get_time()\n\n        color_changes =", "        if self.stack and not fade_ms and self.stack[0].key == key and self.stack[0].dest_color == color:\n            return\n        if not start_time:\n            start_time = self.machine.clock.get_time()\n\n        color_changes =", "CMD-9"),
         M("on() ignores the priority", LT, "        self.color(color=color, fade_ms=fade_ms,\n                   priority=priority, key=key)", "        self.color(color=color, fade_ms=fade_ms,\n                   key=key)", ("CMD-9", "DROP-0")),
